@@ -366,6 +366,9 @@ mod c10 {
         fn poll_write(mut self: Pin<&mut Self>, _: &mut Context<'_>, buf: &[u8]) -> Poll<io::Result<usize>> {
             let n = buf.len().min(self.max).max(1).min(buf.len());
             self.calls += 1;
+            // the caller holds the output lock here: let the other threads run into it
+            std::thread::yield_now();
+            std::thread::yield_now();
             self.log.lock().unwrap().extend_from_slice(&buf[..n]);
             Poll::Ready(Ok(n))
         }
@@ -374,6 +377,8 @@ mod c10 {
             // cut positions vary with the call count: inside the header, at the seam, inside the payload
             let n = total.min(1 + (self.calls * 7) % self.max.max(1));
             self.calls += 1;
+            std::thread::yield_now();
+            std::thread::yield_now();
             let mut left = n;
             let mut log = self.log.lock().unwrap();
             for b in bufs {
@@ -438,7 +443,7 @@ mod c10 {
         let (req, got) = std::thread::scope(|sc| {
             for (wi, mut w) in writers.into_iter().enumerate() {
                 sc.spawn(move || {
-                    let park = Arc::new(Park { woken: AtomicBool::new(true), thread: std::thread::current() });
+                    let park = Arc::new(Park { woken: AtomicBool::new(true), thread: std::thread::current(), polls: AtomicUsize::new(0) });
                     let waker = Waker::from(park.clone());
                     let mut cx = Context::from_waker(&waker);
                     for k in 0..per_writer {
@@ -447,6 +452,7 @@ mod c10 {
                         let mut off = 0;
                         while off < data.len() {
                             while !park.woken.swap(false, Ordering::SeqCst) { std::thread::park(); }
+                            park.polls.fetch_add(1, Ordering::SeqCst);
                             match Pin::new(&mut w).poll_write(&mut cx, &data[off..]) {
                                 Poll::Ready(Ok(n)) => { off += n; park.woken.store(true, Ordering::SeqCst); }
                                 Poll::Ready(Err(e)) => violation("C10", &format!("write failed: {e}")),
@@ -458,7 +464,7 @@ mod c10 {
                 });
             }
             let reader = sc.spawn(move || {
-                let park = Arc::new(Park { woken: AtomicBool::new(true), thread: std::thread::current() });
+                let park = Arc::new(Park { woken: AtomicBool::new(true), thread: std::thread::current(), polls: AtomicUsize::new(0) });
                 let waker = Waker::from(park.clone());
                 let mut cx = Context::from_waker(&waker);
                 let mut got = Vec::new();
@@ -512,10 +518,21 @@ mod c10 {
         }
     }
 
-    struct Park { woken: AtomicBool, thread: std::thread::Thread }
+    /// `polls` counts the polls the owning thread has started: a thread that wakes this one (typically by releasing
+    /// the output lock) waits - bounded - until the woken thread has begun its next poll, so that "woken thread runs
+    /// before the waker's next statement" is a common schedule instead of a rare one.
+    struct Park { woken: AtomicBool, thread: std::thread::Thread, polls: AtomicUsize }
     impl Wake for Park {
         fn wake(self: Arc<Self>) { self.wake_by_ref(); }
-        fn wake_by_ref(self: &Arc<Self>) { self.woken.store(true, Ordering::SeqCst); self.thread.unpark(); }
+        fn wake_by_ref(self: &Arc<Self>) {
+            let p0 = self.polls.load(Ordering::SeqCst);
+            self.woken.store(true, Ordering::SeqCst);
+            self.thread.unpark();
+            if std::thread::current().id() != self.thread.id() {
+                for _ in 0..80 { if self.polls.load(Ordering::SeqCst) != p0 { break; } std::thread::yield_now(); }
+                std::thread::yield_now();
+            }
+        }
     }
 
     pub fn run(nwriters: usize, per_writer: usize) {
@@ -532,7 +549,7 @@ mod c10 {
         for wi in 0..nwriters {
             let mut w = req.output_stream(if wi % 2 == 0 { fastcgi_server::protocol::RecordType::Stdout } else { fastcgi_server::protocol::RecordType::Stderr });
             handles.push(std::thread::spawn(move || {
-                let park = Arc::new(Park { woken: AtomicBool::new(true), thread: std::thread::current() });
+                let park = Arc::new(Park { woken: AtomicBool::new(true), thread: std::thread::current(), polls: AtomicUsize::new(0) });
                 let waker = Waker::from(park.clone());
                 let mut cx = Context::from_waker(&waker);
                 for k in 0..per_writer {
@@ -542,6 +559,7 @@ mod c10 {
                     while off < data.len() {
                         // strict: poll only when woken
                         while !park.woken.swap(false, Ordering::SeqCst) { std::thread::park(); }
+                        park.polls.fetch_add(1, Ordering::SeqCst);
                         match Pin::new(&mut w).poll_write(&mut cx, &data[off..]) {
                             Poll::Ready(Ok(n)) => { off += n; park.woken.store(true, Ordering::SeqCst); }
                             Poll::Ready(Err(e)) => violation("C10", &format!("write failed: {e}")),
